@@ -102,7 +102,7 @@ fn rs_model() -> std::collections::hash_map::RandomState {
 }
 fn named(i: u8) -> GearSet { GearSet { index: i, name: String::from("a"), unknown1: 0, slots: HashMap::new(), facewear: None } }
 
-//@unit props=C09 label=B tier=thorough fn=gearsets::convert_to_gearsets bound="table with an empty entry at position 0, a set at 1, an empty entry at 2 and a set at 3 (set indices symbolic)" stubs=RandomState::new
+//@unit props=C09 label=B tier=parked fn=gearsets::convert_to_gearsets bound="table with an empty entry at position 0, a set at 1, an empty entry at 2 and a set at 3 (set indices symbolic)" stubs=RandomState::new
 //@desc the written table is the fixed 100-slot table: set k is written at table position k (empty positions stay default), whatever gaps precede it
 #[kani::proof]
 #[kani::unwind(102)]
@@ -120,7 +120,7 @@ fn k_convert_to_gearsets_positions() {
     core::mem::forget(out); core::mem::forget(v);
 }
 
-//@unit props=C09 label=B tier=thorough fn=gearsets::convert_from_gearsets bound="100-slot table with named sets at positions 1 and 3 only" stubs=RandomState::new
+//@unit props=C09 label=B tier=parked fn=gearsets::convert_from_gearsets bound="100-slot table with named sets at positions 1 and 3 only" stubs=RandomState::new
 //@desc reading maps table position k to list position k: named sets become Some at their own position, unnamed ones None
 #[kani::proof]
 #[kani::unwind(102)]
